@@ -62,3 +62,45 @@ def c15(run):
         "seed-rotated 1-in-40 sample): weekday, ISO week/week-year, quarter, week/month/quarter/year period bounds, "
         "previous periods, report-bucket hashes and all period pattern strings of the year, recorded from klog.Date / "
         "period.* and judged by TLC against KCalendar; bucket classes compared globally over a window of years")
+
+
+def parse_family(run, prop, want, rule_text, extra_cases=None):
+    cases, r = run.mc("MC_Parse", {"KV_WANT": want})
+    if extra_cases:
+        with open(cases, "a", encoding="utf-8") as f:
+            for c in extra_cases:
+                f.write(json.dumps(c, ensure_ascii=False) + "\n")
+    obs = run.drive(cases)
+    flagged = run.judge("Trace_Parse", obs, env={"KV_RULES": prop}, chunk=6000)
+    return vlib.finish(run, flagged, rule_text=rule_text)
+
+
+@check("C01", "Trace_Parse")
+def c01(run):
+    return parse_family(run, "C01", "all",
+        "documents rendered by the generator KGrammar (value x summary shape x indentation x line ending x final newline, "
+        "headline x record summary, entry pairs, multi-record layouts with blank-line variants) and every rule-violating "
+        "mutant of the base documents (bad dates, should-totals, values, indentation, blank-start summaries, blank lines "
+        "inside records, stray text, second open range at every line); generator and recogniser KParse are cross-checked "
+        "by TLC; the real parser's result for every document is judged by TLC (accept / reject / exact data)")
+
+
+@check("C06", "Trace_Parse")
+def c06(run):
+    cases, r = run.mc("MC_Tokens", {})
+    cases2, r2 = run.mc("MC_Parse", {"KV_WANT": "all"}, out_name="cases2.ndjson")
+    with open(cases, "a", encoding="utf-8") as f:
+        for i, l in enumerate(open(cases2, encoding="utf-8")):
+            if run.tier == "quick" and (i + run.seed) % 4 != 0:
+                continue
+            c = json.loads(l)
+            f.write(json.dumps({"kind": "fuzz", "text": c["text"]}, ensure_ascii=False) + "\n")
+    obs = run.drive(cases, case_timeout=300, env={"KDRIVE_NCMDS": "4" if run.tier == "quick" else "0"})
+    flagged = run.judge("Trace_Parse", obs, env={"KV_RULES": "C06"}, chunk=20000)
+    run.assumptions = ["coverage-guided mutation is not part of this technique; the input space is the token language, "
+                       "the grammar's documents and mutants, and (thorough) seeded random bytes",
+                       "absence of panics and hangs is observed by the driver"]
+    return vlib.finish(run, flagged, rule_text=
+        "all token sequences up to the tier's length over a 24-token alphabet of klog fragments (invalid UTF-8 symbols, NUL, "
+        "lone CR, huge numbers) plus every generated document and mutant: serial and parallel parse (2, 3, len+1 workers), "
+        "for accepted input 14 read-only commands through the real CLI entry point, for rejected input both error renderings")
